@@ -159,7 +159,8 @@ class World:
 
     CELL = (2, 4)
 
-    def __init__(self, fam: str, par: list[int], nc: int, wseed: int, geo: dict | None = None):
+    def __init__(self, fam: str, par: list[int], nc: int, wseed: int, geo: dict | None = None,
+                 dm: list[int] | None = None):
         from PIL import Image
         from term_image.image import ITerm2Image, KittyImage
 
@@ -186,8 +187,18 @@ class World:
         self.img = Image.new(mode, (geo["ow"], geo["oh"]))
         self.nodes: list = [None] * (self.n + 1)
         self.nodes[1] = self.base
+        self.dm = list(dm) if dm else [0] * self.n
+        self.metas: list = []
         for i in range(2, nc + 1):
-            self.nodes[i] = type(f"C20{fam.capitalize()}{i}", (self.nodes[par[i - 1]],), {})
+            parent = self.nodes[par[i - 1]]
+            name = f"C20{fam.capitalize()}{i}"
+            if self.dm[i - 1]:
+                # class declared with a metaclass derived from its parent's metaclass
+                meta = type(f"{name}Meta", (type(parent),), {})
+                self.metas.append((meta, set(vars(meta))))
+                self.nodes[i] = meta(name, (parent,), {})
+            else:
+                self.nodes[i] = type(parent)(name, (parent,), {})
         for i in range(nc + 1, self.n + 1):
             self.nodes[i] = self._instance(par[i - 1])
         self._created = {i: set(vars(self.nodes[i])) for i in range(2, self.n + 1)}
@@ -202,6 +213,10 @@ class World:
     def clean(self) -> None:
         """Back to 'nothing set anywhere' without re-creating the classes."""
         restore_real_classes(self.base)
+        for meta, created in self.metas:
+            for k in list(vars(meta)):
+                if k not in created:
+                    delattr_raw(meta, k)
         for i in range(2, self.n + 1):
             node = self.nodes[i]
             for k in list(vars(node)):
